@@ -32,6 +32,10 @@ def on_yield(ctx):
         ctx.assume(ctx.spec_bool(NOT_RESTARTING))
 
 
+# what the interference at a yield may change (used for the havoc at the head of a loop that contains the yield)
+on_yield.modifies = ["_runstate_paused", "_runstate_holding", "_prev_state", "ghost_pause_seq", "_tick_time", "ghost_sys_state", "ghost_run_id"]
+
+
 def C(cls, requires=(), ensures=(), loops=None, target=None):
     if cls != "RestartEngineCommand":
         ensures = list(ensures) + [("restarting-only-during-a-restart",
